@@ -133,9 +133,54 @@ func runServe(fields []string) string {
 	if err != nil {
 		return "I=new-failed:" + err.Error()
 	}
+	// every wildcard name of the registered patterns, plus one that occurs nowhere
+	allNames := []string{"nosuchname"}
+	for _, item := range strings.Split(fields[2], ";") {
+		if a := strings.Split(item, ","); len(a) == 4 {
+			pat := unhx(a[1])
+			for i := 0; i < len(pat); i++ {
+				if pat[i] == '{' {
+					if j := strings.IndexByte(pat[i:], '}'); j > 0 {
+						if nm := pat[i+1 : i+j]; !slices.Contains(allNames, nm) {
+							allNames = append(allNames, nm)
+						}
+					}
+				}
+			}
+		}
+	}
+	var hOracles []string
 	mkHandler := func(hid int) fox.HandlerFunc {
 		return func(c fox.Context) {
-			seen = &ctxView{kind: "route:" + strconv.Itoa(hid), pattern: c.Pattern(), route: c.Route(), params: slices.Collect(c.Params()), scope: c.Scope(), clone: cloneDiff(c)}
+			ps := slices.Collect(c.Params())
+			seen = &ctxView{kind: "route:" + strconv.Itoa(hid), pattern: c.Pattern(), route: c.Route(), params: ps, scope: c.Scope(), clone: cloneDiff(c)}
+			// Param(name) is the first parameter of that name of THIS match (the slash-adjusted one included), and "" for
+			// a name the matched pattern does not have - whatever other branches the matcher explored on the way
+			for _, nm := range allNames {
+				want := ""
+				for _, p := range ps {
+					if p.Key == nm {
+						want = p.Value
+						break
+					}
+				}
+				if got := c.Param(nm); got != want {
+					hOracles = append(hOracles, fmt.Sprintf("Param(%q)=%q in the handler of %s, whose parameters are %s", nm, got, hx(c.Pattern()), showParams(ps)))
+				}
+			}
+			// the net/http adapters hand the same parameters to a wrapped handler through the request context
+			if hid%3 != 0 {
+				check := func(w http.ResponseWriter, r *http.Request) {
+					if got := []fox.Param(fox.ParamsFromContext(r.Context())); showParams(got) != showParams(ps) {
+						hOracles = append(hOracles, fmt.Sprintf("ParamsFromContext in a WrapF/WrapH handler of %s = %s, the context has %s", hx(c.Pattern()), showParams(got), showParams(ps)))
+					}
+				}
+				if hid%3 == 1 {
+					fox.WrapF(check)(c)
+				} else {
+					fox.WrapH(http.HandlerFunc(check))(c)
+				}
+			}
 		}
 	}
 	for _, item := range strings.Split(fields[2], ";") {
@@ -170,11 +215,15 @@ func runServe(fields []string) string {
 		req.URL.RawPath = rawPath
 		req.URL.RawQuery = query
 		seen = nil
+		hOracles = nil
 		w := newRecWriter()
 		f.ServeHTTP(w, req)
 		var resI, resJ string
 		bad := func(format string, args ...any) {
 			oracles = append(oracles, fmt.Sprintf("%s %s: ", method, hx(path))+fmt.Sprintf(format, args...))
+		}
+		for _, o := range hOracles {
+			bad("%s", o)
 		}
 		if seen != nil && seen.clone != "" {
 			bad("a Clone() taken in the %s handler differs from the context: %s", seen.kind, seen.clone)
